@@ -193,4 +193,42 @@ theorem window_code {N : Nat} (c0 : Gen.Code.ReplayCache) (id salt : List UInt8)
           rw [this]; exact hw
         rw [hC, this]
 
+
+/-- how many of the translated `Add` calls of a run presented the handshake (id, salt) and were ACCEPTED; `none` if a call panicked -/
+def codeWinners (id salt : List UInt8) (c : Gen.Code.ReplayCache) : List (List UInt8 × List UInt8) → Option Nat
+  | [] => some 0
+  | (i, s) :: r => (Gen.Code.ReplayCache.Add c i s).bind (fun p =>
+      (codeWinners id salt p.1 r).map (fun n =>
+        (if Replay.preHash i s = Replay.preHash id salt ∧ p.2 = true then 1 else 0) + n))
+
+theorem codeWinners_abs (id salt : List UInt8) : ∀ (hs : List (List UInt8 × List UInt8)) (c : Gen.Code.ReplayCache),
+    codeWinners id salt c hs =
+      some (winners Gen.maxCapacity (Replay.preHash id salt) (Tie.Replay.abs c) (hs.map fun p => Op.add (Replay.preHash p.1 p.2))) := by
+  intro hs
+  induction hs with
+  | nil => intro c; rfl
+  | cons p r ih =>
+    intro c
+    obtain ⟨i, s⟩ := p
+    have h := code_add_refines_model c i s
+    cases hA : Gen.Code.ReplayCache.Add c i s with
+    | none => simp [hA] at h
+    | some q =>
+      simp only [hA, Option.map_some, Option.some.injEq] at h
+      have h1 : Tie.Replay.abs q.1 = ((Tie.Replay.abs c).add (Replay.preHash i s)).1 := by rw [← h]
+      have h2 : q.2 = ((Tie.Replay.abs c).add (Replay.preHash i s)).2 := by rw [← h]
+      simp only [codeWinners, hA, Option.bind_some, ih q.1, Option.map_some, List.map_cons, winners, h1, h2]
+
+/-- **code_exactly_one_winner**: over runs of the translated `Add` (each call one critical section: C19), copies of one
+    fresh handshake presented among at most N checked handshakes on a cache of capacity ≥ N > 0 are accepted exactly once —
+    counted by the 32-bit checksum, which is what the cache remembers -/
+theorem code_exactly_one_winner {N : Nat} (id salt : List UInt8) (hs : List (List UInt8 × List UInt8)) (c : Gen.Code.ReplayCache)
+    (hcap : (N : Int) ≤ c.capacity) (hN : 0 < N) (hfresh : ¬ (Tie.Replay.abs c).mem (Replay.preHash id salt))
+    (hnum : hs.length ≤ N) (hp : 0 < presentations (Replay.preHash id salt) (hs.map fun p => Op.add (Replay.preHash p.1 p.2))) :
+    codeWinners id salt c hs = some 1 := by
+  rw [codeWinners_abs]
+  have hcap' : (N : Int) ≤ (Tie.Replay.abs c).cap := hcap
+  rw [exactly_one_winner (N := N) (Replay.preHash id salt) _ (Tie.Replay.abs c) hcap' hN hfresh
+    (Tie.Replay.capsGE_map_add N hs) (by rw [Tie.Replay.numAdds_map_add]; exact hnum) hp]
+
 end OutlineModel.Props.C07
